@@ -81,7 +81,7 @@ func serializeIdentifier(value string) string {
 	case '\f':
 		suffix = `\C `
 	case '0', '1', '2', '3', '4', '5', '6', '7', '8', '9':
-		suffix = fmt.Sprintf("\\%X", c)
+		suffix = fmt.Sprintf("\\%X ", c)
 	default:
 		if c > 0x7F {
 			suffix = string(c)
